@@ -3,7 +3,7 @@ from __future__ import annotations
 
 import z3
 
-from .sym import (SInt, SBool, SStr, SFloat, SOpt, PList, SList, PDict, PObj, SRef, VExc, Func, BoundMethod,
+from .sym import (Custom, SInt, SBool, SStr, SFloat, SOpt, PList, SList, PDict, PObj, SRef, VExc, Func, BoundMethod,
                   Builtin, ClassRef, ReMatch, RePattern, Unsupported, PyRaise, PathEnd, lift, wrap, is_sym,
                   is_intlike, as_int_term, fresh_name, py_str_of_int, py_int, py_lower, py_upper, f2i, i2f,
                   _Range, _Enumerate, _Reversed, _Zip, _DictItems, _DictValues, _SDictLike, _Sliceable, exc_isa,
@@ -44,7 +44,7 @@ def b_len(ex, args, kwargs, line):
         return len(v.d)
     if isinstance(v, (str, tuple, bytes, list, dict)):
         return len(v)
-    if isinstance(v, (_Sliceable, _SDictLike)):
+    if isinstance(v, (_Sliceable, _SDictLike, Custom)):
         return wrap(v.length(ex))
     if isinstance(v, PObj):
         return ex.call_value(BoundMethod(v, "__len__"), [], {}, line)
@@ -417,7 +417,7 @@ def call_method(ex, obj, name, args, kwargs, line):
         return pdict_method(ex, obj, name, args, kwargs, line)
     if isinstance(obj, dict):
         return pdict_method(ex, PDict(obj), name, args, kwargs, line)
-    if isinstance(obj, _SDictLike) or isinstance(obj, _Sliceable):
+    if isinstance(obj, (_SDictLike, _Sliceable, Custom)):
         return obj.method(ex, name, args, kwargs, line)
     if isinstance(obj, RePattern):
         return RX.pattern_method(ex, obj, name, args, kwargs, line)
@@ -428,6 +428,11 @@ def call_method(ex, obj, name, args, kwargs, line):
     if isinstance(obj, tuple) and name == "count":
         cs = [ex.equals(x, args[0]) for x in obj]
         return wrap(z3.Sum([z3.If(c if not isinstance(c, bool) else z3.BoolVal(c), 1, 0) for c in cs])) if cs else 0
+    if isinstance(obj, (ClassRef, Builtin)) and obj.name == "dict" and name == "fromkeys":
+        d = PDict()
+        for k in ex.iter_concrete(args[0]):
+            d.d[k] = args[1] if len(args) > 1 else None
+        return d
     if isinstance(obj, ClassRef):
         return ex.ctx.call_static(ex, obj.name, name, args, kwargs, line)
     raise Unsupported(f"method .{name} on {type(obj).__name__} at L{line}")
@@ -462,6 +467,8 @@ def str_method(ex, s, name, args, kwargs, line):
             return PList(r)
         return r
     t = lift(s)
+    if name == "join" and isinstance(args[0], Custom):
+        return args[0].join(ex, s, line)
     if name == "join":
         items = ex.iter_concrete(args[0]) if not isinstance(args[0], SList) else None
         if items is None:
